@@ -239,6 +239,5 @@ def _b(r):
 
 
 def replay(ctx, path):
-    d = json.load(open(path))
-    print(json.dumps(d["primary"], indent=1)[:3000])
-    return 0
+    import replaylib
+    return replaylib.replay_file(path)
